@@ -88,7 +88,6 @@ Section Acct.
   Notation n_dropped := (n_dropped P St).
   Notation n_discarded := (n_discarded P St).
   Notation dropped_at := (dropped_at P St).
-  Notation errors_at := (errors_at P St).
   Notation queued_packets := (queued_packets P St).
   Notation analysed_packets := (analysed_packets P St).
 
@@ -102,7 +101,6 @@ Section Acct.
     | SentOk _ w => (w < nw)%nat /\ kind = PTcp
     | _ => True
     end.
-  Definition herr (x : pst) (w : nat) : N := match kind with PHttp => errors_at x w | _ => 0 end.
 
   Record Inv (x : pst) : Prop := {
     i_lq : length (queues P St x) = nw;
@@ -115,7 +113,7 @@ Section Acct.
              | PHttp => c_dispatched P St x + sumN (map called (pcs P St x)) = calls P St x
              | PTls => c_dispatched P St x + n_discarded x + sumN (map called (pcs P St x)) = calls P St x
              end;
-    i_wd : forall w, (w < nw)%nat -> nth w (c_wdropped P St x) 0 = dropped_at x w + herr x w;
+    i_wd : forall w, (w < nw)%nat -> nth w (c_wdropped P St x) 0 = dropped_at x w;
     i_perm : Permutation (queued_packets x ++ flat_map sentok (pcs P St x))
                          (analysed_packets x ++ concat (queues P St x))
   }.
@@ -131,8 +129,7 @@ Section Acct.
     - assert (Z : sumN (map called (repeat Idle nt)) = 0).
       { apply sumN_zero. intros pc H. apply repeat_spec in H. now subst. }
       destruct kind; cbn; rewrite ?Z; reflexivity.
-    - intros w Hw. unfold dropped_at, herr, errors_at. cbn.
-      rewrite nth_repeat. destruct kind; reflexivity.
+    - intros w Hw. unfold dropped_at. cbn. now rewrite nth_repeat.
     - unfold queued_packets, analysed_packets. cbn.
       rewrite concat_repeat_nil, flat_map_repeat_nil by reflexivity. constructor.
   Qed.
@@ -153,7 +150,7 @@ Section Acct.
     pc_facts x t (@Called P p) Hlt. rewrite Hpc in *. cbn [busy d_done called sentok app] in *.
     destruct I as [Iq Ic Iok Ica Idr Idi Iwd Ipe].
     constructor; cbn [queues c_wdropped pcs calls rets c_dropped c_dispatched analysed];
-      unfold n_queued, n_dropped, n_discarded, dropped_at, herr, errors_at, queued_packets, analysed_packets in *;
+      unfold n_queued, n_dropped, n_discarded, dropped_at, queued_packets, analysed_packets in *;
       cbn [queues c_wdropped pcs calls rets c_dropped c_dispatched analysed] in *; auto.
     - apply Forall_upd; [auto | exact I].
     - lia.
@@ -162,7 +159,7 @@ Section Acct.
     - rewrite Sp. exact Ipe.
   Qed.
 
-  Lemma inv_work x w : Inv x -> Inv (work P St analyse kind x w).
+  Lemma inv_work x w : Inv x -> Inv (work P St analyse x w).
   Proof.
     intros I. unfold work.
     destruct (nth w (queues P St x) []) as [|p rest] eqn:Eq; [exact I|].
@@ -172,17 +169,9 @@ Section Acct.
     destruct (analyse s p) as [s' err].
     destruct I as [Iq Ic Iok Ica Idr Idi Iwd Ipe].
     constructor; cbn [queues c_wdropped pcs calls rets c_dropped c_dispatched analysed];
-      unfold n_queued, n_dropped, n_discarded, dropped_at, herr, errors_at, queued_packets, analysed_packets in *;
+      unfold n_queued, n_dropped, n_discarded, dropped_at, queued_packets, analysed_packets in *;
       cbn [queues c_wdropped pcs calls rets c_dropped c_dispatched analysed] in *; auto.
     - now rewrite length_upd.
-    - destruct kind; auto. destruct err; auto. now rewrite length_upd.
-    - intros w' Hw'. specialize (Iwd w' Hw'). rewrite len_filter_snoc. cbn [fst snd].
-      destruct kind; try (rewrite Iwd; lia).
-      destruct err; cbn [andb].
-      + destruct (Nat.eq_dec w w') as [<-|Hne].
-        * rewrite nth_upd_same by lia. rewrite Nat.eqb_refl. lia.
-        * rewrite nth_upd_other by auto. apply Nat.eqb_neq in Hne. rewrite Hne. lia.
-      + lia.
     - rewrite map_app. cbn [map fst snd].
       assert (Hw2 : (w < length (queues P St x))%nat) by lia.
       pose proof (flat_map_upd_perm (fun q : list P => q) (queues P St x) w rest [] Hw2) as K.
@@ -195,7 +184,7 @@ Section Acct.
   Ltac unf :=
     unfold set_pc, add_dispatched, add_dropped, add_wdropped, enqueue, finish;
     cbn [queues c_wdropped pcs calls rets c_dropped c_dispatched analysed wstates];
-    unfold n_queued, n_dropped, n_discarded, dropped_at, herr, errors_at, queued_packets, analysed_packets in *;
+    unfold n_queued, n_dropped, n_discarded, dropped_at, queued_packets, analysed_packets in *;
     cbn [queues c_wdropped pcs calls rets c_dropped c_dispatched analysed wstates] in *.
 
   Lemma perm_enqueue (qs : list (list P)) w p : (w < length qs)%nat ->
@@ -235,7 +224,6 @@ Section Acct.
         * apply Forall_upd; [auto | split; auto].
         * lia.
         * lia.
-        * intros w' Hw'. specialize (Iwd w' Hw'). rewrite Ek in Iwd. lia.
         * rewrite Kq. rewrite <- Permutation_middle.
           rewrite <- Ipe. rewrite Sp. symmetry. apply Permutation_middle.
       + (* HTTP: enqueued, return Queued *)
@@ -247,7 +235,7 @@ Section Acct.
         * lia.
         * lia.
         * lia.
-        * intros w' Hw'. specialize (Iwd w' Hw'). rewrite Ek in Iwd. rewrite ?len_filter_snoc. cbn [r_queued r_worker negb andb]. lia.
+        * intros w' Hw'. specialize (Iwd w' Hw'). rewrite ?len_filter_snoc. cbn [r_queued r_worker negb andb]. lia.
         * rewrite Kq, Sp, <- app_assoc. cbn [app].
           etransitivity; [|apply Permutation_middle].
           etransitivity; [symmetry; apply Permutation_middle|].
@@ -261,7 +249,7 @@ Section Acct.
         * lia.
         * lia.
         * lia.
-        * intros w' Hw'. specialize (Iwd w' Hw'). rewrite Ek in Iwd. rewrite ?len_filter_snoc. cbn [r_queued r_worker negb andb]. lia.
+        * intros w' Hw'. specialize (Iwd w' Hw'). rewrite ?len_filter_snoc. cbn [r_queued r_worker negb andb]. lia.
         * rewrite Kq, Sp, <- app_assoc. cbn [app].
           etransitivity; [|apply Permutation_middle].
           etransitivity; [symmetry; apply Permutation_middle|].
@@ -285,7 +273,6 @@ Section Acct.
         * lia.
         * lia.
         * lia.
-        * intros w' Hw'. specialize (Iwd w' Hw'). rewrite Ek in Iwd. lia.
         * rewrite Sp. exact Ipe.
       + (* TLS *)
         destruct I as [Iq Ic Iok Ica Idr Idi Iwd Ipe]. rewrite ?Ek in Idi.
@@ -296,7 +283,6 @@ Section Acct.
           -- lia.
           -- lia.
           -- lia.
-          -- intros w' Hw'. specialize (Iwd w' Hw'). rewrite Ek in Iwd. lia.
           -- rewrite Sp. exact Ipe.
         * (* no flow: dropped++ ; return Dropped *)
           pc_facts x t (@Idle P) Hlt. rewrite Hpc in *. cbn [busy d_done called sentok app] in *.
@@ -305,7 +291,7 @@ Section Acct.
           -- lia.
           -- lia.
           -- lia.
-          -- intros w' Hw'. specialize (Iwd w' Hw'). rewrite Ek in Iwd. rewrite ?len_filter_snoc. cbn [r_queued r_worker negb andb]. lia.
+          -- intros w' Hw'. specialize (Iwd w' Hw'). rewrite ?len_filter_snoc. cbn [r_queued r_worker negb andb]. lia.
           -- rewrite app_nil_r, Sp. exact Ipe.
     - (* Counted *)
       apply (inv_try_send x t p w full (Counted p w)); auto.
@@ -318,7 +304,7 @@ Section Acct.
       + lia.
       + lia.
       + lia.
-      + intros w' Hw'. specialize (Iwd w' Hw'). rewrite Ek in Iwd. rewrite ?len_filter_snoc. cbn [r_queued r_worker negb andb]. lia.
+      + intros w' Hw'. specialize (Iwd w' Hw'). rewrite ?len_filter_snoc. cbn [r_queued r_worker negb andb]. lia.
       + rewrite <- Ipe, <- app_assoc. apply Permutation_app_head. cbn [app]. exact Sp.
     - (* Full: dropped++ *)
       destruct I as [Iq Ic Iok Ica Idr Idi Iwd Ipe].
@@ -354,12 +340,6 @@ Section Acct.
     apply IH, inv_step, I.
   Qed.
 
-  Lemma no_errors_at x w : existsb (fun a : nat * P * bool => snd a) (analysed P St x) = false -> errors_at x w = 0.
-  Proof.
-    unfold errors_at. induction (analysed P St x) as [|a l IH]; cbn [existsb filter length]; [reflexivity|].
-    intros H. apply orb_false_iff in H as [Ha Hl]. rewrite Ha. cbn [andb]. now apply IH.
-  Qed.
-
   Theorem accounting nt s0 es :
     let x := run_events P St shard analyse kind (init P St nw nt s0) es in
     quiescent P St x = true ->
@@ -367,8 +347,8 @@ Section Acct.
     /\ Permutation (queued_packets x) (analysed_packets x)
     /\ c_dropped P St x = n_dropped x
     /\ dispatched_law_b P St kind x = true
-    /\ (forall w, (w < nw)%nat -> nth w (c_wdropped P St x) 0 = dropped_at x w + herr x w)
-    /\ (http_error_counted P St kind x = false -> stats_agree_b P St nw x = true).
+    /\ (forall w, (w < nw)%nat -> nth w (c_wdropped P St x) 0 = dropped_at x w)
+    /\ stats_agree_b P St nw x = true.
   Proof.
     intros x Hq. pose proof (inv_run es _ (inv_init nt s0)) as I. fold x in I.
     unfold quiescent in Hq. apply andb_true_iff in Hq as [Hidle Hnil].
@@ -394,14 +374,12 @@ Section Acct.
     - exact Hdrop.
     - unfold dispatched_law_b. destruct kind; lia.
     - exact Iwd.
-    - intros Hk. unfold stats_agree_b. apply andb_true_iff. split; [lia|].
-      apply forallb_forall. intros w Hw. apply in_seq in Hw. rewrite (Iwd w) by lia.
-      unfold herr, http_error_counted in *. destruct kind; try lia.
-      rewrite (no_errors_at x w Hk). lia.
+    - unfold stats_agree_b. apply andb_true_iff. split; [lia|].
+      apply forallb_forall. intros w Hw. apply in_seq in Hw. rewrite (Iwd w) by lia. lia.
   Qed.
 End Acct.
 
-(* ---------- the hypotheses are satisfiable; the known class is a real counterexample ---------- *)
+(* ---------- the hypotheses are satisfiable; regression for the former HTTP class ---------- *)
 (* TCP pool, 2 workers, 2 dispatcher threads interleaved; thread 1 finds its queue full *)
 Example accounting_example :
   let shard := fun p : nat => Some (p mod 2)%nat in
@@ -412,11 +390,12 @@ Example accounting_example :
   analysed_packets nat unit x = [4%nat].
 Proof. vm_compute. repeat split; reflexivity. Qed.
 
-(* HTTP pool: one packet, reported Queued, analysed, analysis returns Err: worker 0 "dropped" 1 *)
-Lemma http_error_counted_refutes_agreement :
+(* regression (fix 93cdf08): HTTP pool, one packet reported Queued, analysed, analysis returns Err:
+   worker 0 no longer "dropped" it *)
+Example http_error_not_counted :
   let x := run_events nat unit (fun _ => Some 0%nat) (fun s _ => (s, true)) PHttp (init nat unit 1 1 tt)
              [Call 0 5%nat; Tick 0 false; Tick 0 false; Work 0] in
-  quiescent nat unit x = true /\ http_error_counted nat unit PHttp x = true /\
+  quiescent nat unit x = true /\ analysed nat unit x = [(0%nat, 5%nat, true)] /\
   n_queued nat unit x = 1 /\ n_dropped nat unit x = 0 /\ c_dropped nat unit x = 0 /\
-  c_wdropped nat unit x = [1] /\ stats_agree_b nat unit 1 x = false.
+  c_wdropped nat unit x = [0] /\ stats_agree_b nat unit 1 x = true.
 Proof. vm_compute. repeat split; reflexivity. Qed.
